@@ -202,12 +202,24 @@ pub fn main(opts: &Opts) {
     }
     let cases = gen(opts, &mut rng);
     let texts: Vec<String> = cases.iter().map(|c| c.xml()).collect();
-    let results = run_pool(texts.clone(), 16, |text| {
+    // thread-level watchdog: a reader loop that never returns cannot be interrupted from inside
+    let results = run_pool_watchdog_opt(texts.clone(), 16, std::time::Duration::from_secs(20), 8, |text| {
         let rt = tokio::runtime::Builder::new_current_thread().enable_all().build().unwrap();
         rt.block_on(establish(&text))
     });
-    for ((c, text), (out, adv11)) in cases.iter().zip(texts.iter()).zip(results) {
+    for ((c, text), res) in cases.iter().zip(texts.iter()).zip(results) {
         let case = hexs(text);
+        let (out, adv11) = match res {
+            Ok(x) => x,
+            Err(Stuck::Timeout) => {
+                sink.direct(&case, "violation session-establishment-does-not-return".into());
+                continue;
+            }
+            Err(Stuck::Skipped) => {
+                sink.count("skipped_after_8_stuck_threads");
+                continue;
+            }
+        };
         let spans = xmltok::spans(text);
         sink.corr(
             &case,
